@@ -89,8 +89,14 @@ func c07Letters(w *harness.World) []Letter {
 }
 
 func c07Exec(depth int, maxFaults int, tornAll bool) explore.Exec {
+	return c07ExecMon(depth, maxFaults, tornAll, harness.Monitors{Append: true})
+}
+
+// c07ExecMon: the same driver with other monitors switched on (format decoder,
+// reference counting) for the properties that reuse it.
+func c07ExecMon(depth int, maxFaults int, tornAll bool, mon harness.Monitors) explore.Exec {
 	sp := &SeqProfile{Name: "faults", Keys: [][]byte{k7b, k7c, k7e, k7cc, bs("a"), bs("d"), bs("f"), bs("g"), bs("h")}, Depth: depth,
-		Mon: harness.Monitors{Append: true}}
+		Mon: mon}
 	sp.Init = func(w *harness.World) {
 		c07Init(w)
 		w.File.TornAll = tornAll
@@ -155,6 +161,13 @@ func c07Exec(depth int, maxFaults int, tornAll bool) explore.Exec {
 		w.CheckDurable()
 		w.Reopen(true)
 		w.ObserveAll()
+		if mon.RefCount {
+			// never negative, never used after release.  A zero balance after
+			// Close is NOT demanded here: no property covers references held by
+			// the garbage of a call that failed (C15 quantifies over fault-free
+			// histories), and the unchanged tree does leave such references.
+			w.CheckRefLive()
+		}
 	}
 	base := sp.Exec()
 	return func(c *explore.Chooser) *explore.Outcome {
